@@ -201,6 +201,15 @@ def corpus():
                 "spec": _mini([_obj("Query", [("a\n", "Int", [], None)])])})
     out.append({"kind": "schema", "injected": [["LInvalidTypeName", ["T\n"]]],
                 "spec": _mini([_obj("Query", [("a", ["N", "T\n"], [], None)]), _obj("T\n", [("a", "Int", [], None)])])})
+    # seeded C13-f: \w in the name pattern is Unicode-aware; these are not GraphQL names
+    for nm in ("caf\u00e9", "size\u0663", "a\uff3fb", "e\u0301x"):
+        out.append({"kind": "schema", "injected": [["LInvalidName", [nm]]], "single": True,
+                    "spec": _mini([_obj("Query", [(nm, "Int", [("x", "Int")], None)])])})
+        out.append({"kind": "schema", "injected": [["LInvalidName", [nm]]], "single": True,
+                    "spec": _mini([_obj("Query", [("a", "Int", [(nm, "Int")], None)])])})
+    out.append({"kind": "schema", "injected": [["LInvalidTypeName", ["Typ\u00e9"]]], "single": True,
+                "spec": _mini([_obj("Query", [("a", ["N", "Typ\u00e9"], [], None)]),
+                               _obj("Typ\u00e9", [("a", "Int", [], None)])])})
     # fix C13-03: resolver signatures the unrepaired check got wrong
     for sig, args in [
         ([["root", "PK", False], ["ctx", "PK", False], ["info", "PK", False], ["x", "VP", False]], [["x", "Int!", None]]),
@@ -368,6 +377,20 @@ def generate(rng, tier):
         cases.append({"kind": "history", "spec": base, "ops": [
             ["validate"], ["assign_default", badr], ["validate"], ["assign_default", good], ["validate"],
             ["assign_default", None], ["validate"]][(i % 2):]})
+    # names that start like a name and go on with a non-ASCII letter / digit / connector, at every
+    # name position (type, field, argument, input field, enum value, directive, directive argument)
+    name_kinds = [k for k in G.INVALIDATORS if k.startswith("bad_")]
+    for k in name_kinds:
+        pool = [n for n in (G.BAD_TYPE_NAMES if k == "bad_type_name" else G.UNICODE_BAD_NAMES)
+                if any(ord(c) > 127 for c in n)]
+        for nm in (pool if not quick else rng.sample(pool, min(3, len(pool)))):
+            for _ in range(40):
+                base = G.gen_valid_spec(rng, "code")
+                r = G.invalidate(rng, base, k, name=nm)
+                if r is None or not _buildable(r[0]):
+                    continue
+                cases.append({"kind": "schema", "spec": r[0], "injected": [r[1]], "single": True})
+                break
     # every invalidator a few times on its own
     for k in G.INVALIDATORS:
         got = 0
